@@ -38,6 +38,12 @@ where
                 }
                 continue;
             }
+            // The task no longer exists (it was deleted outright, or by a sync). As for a
+            // task that is no longer in the working set, leave a blank item so that the
+            // following items keep their indices when not renumbering.
+            if !renumber {
+                new_ws.push(None);
+            }
         } else if !renumber {
             // This item was already None. If we are not renumbering, then it stays in place;
             // otherwise the gap is closed.
